@@ -525,3 +525,28 @@ Proof.
   - apply delivered_all_b_sound. vm_compute. reflexivity.
   - apply fifo_ok_coarse. intros i Hi. pattern i. apply in_R4; [| | |exact Hi]; vm_compute; lia.
 Qed.
+
+(* ------------------------------------------------------------------------------------------ *)
+(* The FIFO hypothesis is needed: with FIFOLimit = 1 a duplicate of the leader's PRE-PREPARE     *)
+(* evicts the leader's PREPARE from every buffer; every message has been delivered to everybody, *)
+(* nobody ever sees a PREPARE quorum, nobody decides (same initial configuration as example 1).  *)
+
+Definition sched_evict : list (nat * nat) :=
+  [(0,0); (1,0); (2,0); (0,1); (0,2); (0,0); (0,3); (1,1); (1,2); (1,0); (1,3); (2,1); (2,2); (2,0); (2,3)].
+
+Definition g_evict : gcfg := match gexec 4 1 ld4 R4 g1_0 sched_evict with Some g => g | None => g1_0 end.
+
+Example fifo_bound_needed :
+  gexec 4 1 ld4 R4 g1_0 sched_evict = Some g_evict
+  /\ delivered_all_b R4 g_evict = true /\ gdecs g_evict = [] /\ length (pool g_evict) = 4.
+Proof. vm_compute. repeat split; reflexivity. Qed.
+
+(* ... as a statement about the closed system: good_round_decides without fifo_ok is false *)
+Theorem good_round_without_fifo_refuted :
+  exists g, gsteps 4 1 ld4 R4 g1_0 g /\ delivered_all R4 g /\ gdecs g = [].
+Proof.
+  exists g_evict. destruct fifo_bound_needed as [H1 [H2 [H3 _]]]. split; [|split].
+  - apply (gexec_sound 4 1 ld4 R4 sched_evict). exact H1.
+  - apply delivered_all_b_sound. exact H2.
+  - exact H3.
+Qed.
